@@ -69,6 +69,22 @@ def trace_level():
     tgt["post"]["sib"] = sorted(set(tgt["post"]["sib"]) | {sorted(tgt["post"]["info"])[0]})[: None] if sorted(tgt["post"]["info"])[0] not in tgt["post"]["sib"] else []
     r = rejected(ctx, "Trace_Workflow", "Trace_Workflow.cfg", ev5, group_key="tid")
     expect("Workflow: a .license sibling that appears during lint is rejected", any(x["clause"].startswith("C15.") for x in r))
+    # --- Targets: the decision table replayed, then one observation corrupted
+    import targets
+    before = len(ctx.rejects)
+    tg = targets.stage(ctx, ("C07.", "C11.", "C15.", "crash"), tid0=1)
+    expect("Targets: the 175 cells of the decision table are accepted", len(ctx.rejects) == before, f"{len(tg['events'])} cells")
+    del ctx.rejects[before:]
+    bad = copy.deepcopy(tg["events"])
+    tgt = next(e for e in bad if e["where"] == "sibling")
+    tgt["where"] = "infile"
+    r = rejected(ctx, "Trace_Targets", "Trace_Targets.cfg", bad)
+    expect("Targets: a header in the file where the table says sibling is rejected", any(x["clause"].startswith("C07.") for x in r))
+    bad = copy.deepcopy(tg["events"])
+    tgt = next(e for e in bad if e["c"]["sib"] == "dangling")
+    tgt["outside"] = True
+    r = rejected(ctx, "Trace_Targets", "Trace_Targets.cfg", bad)
+    expect("Targets: a write through a dangling link is rejected", any(x["clause"].startswith("C15.") for x in r))
     # --- repository-test traces (C15 footprint, C16 exit discipline, C05 matches)
     sev = suitetrace.collect(ctx)
     c15 = suitetrace.for_c15(sev, 1)
